@@ -45,7 +45,7 @@ func qeSpecVerdict(f world.QuoteFields, d world.QeIdentityDoc) bool {
 }
 
 func C07(c *core.Ctx) {
-	c.Rule = "QE reports (MISCSELECT, ATTRIBUTES, MRSIGNER, ISVPRODID, ISVSVN random, re-signed by the PCK key) against signed QE Identity documents: masks of random content with report bits set outside the mask, value/mask mismatches in single bits, mask/field lengths 3/4/5 and 15/16/17, MRSIGNER and ISVPRODID mismatches, ordered level lists of 0..4 levels with ISVSVN at report-1/report/report+1 and each of the 7 statuses; through verify.RawTdxQuote with collateral. non-trivial = every case; distinct = distinct (report, identity)"
+	c.Rule = "QE reports (MISCSELECT, ATTRIBUTES, MRSIGNER, ISVPRODID, ISVSVN random, re-signed by the PCK key) against signed QE Identity documents: masks of random content with report bits set outside the mask, value/mask mismatches in single bits, mask/field lengths 3/4/5 and 15/16/17, MRSIGNER and ISVPRODID mismatches, ordered level lists of 0..4 levels with ISVSVN at report-1/report/report+1 and at values beyond 16 bits (report + k*65536, 65535, 65536, 2^31, 2^32-1) and each of the 7 statuses; through verify.RawTdxQuote with collateral. non-trivial = every case; distinct = distinct (report, identity)"
 	r := c.Rng
 	pki, err := world.NewPKI(r, world.PKIOpts{Now: baseTime, Ext: world.RandomSGXExt(r)})
 	if err != nil {
@@ -149,6 +149,12 @@ func C07(c *core.Ctx) {
 			desc := ""
 			for j := 0; j < n; j++ {
 				isv := uint32(w.Fields.QeIsvSvn) + uint32(r.Intn(3)) - 1
+				switch r.Intn(8) {
+				case 0: // values beyond 16 bits: the report's ISVSVN is a 16-bit field, the identity's is not
+					isv = uint32(w.Fields.QeIsvSvn) + 65536*uint32(1+r.Intn(3)) - uint32(r.Intn(2))
+				case 1:
+					isv = []uint32{65535, 65536, 0xffffffff, 0x80000000, 0}[r.Intn(5)]
+				}
 				st := allStatuses[r.Intn(7)]
 				if r.Intn(2) == 0 {
 					st = "UpToDate"
@@ -162,6 +168,13 @@ func C07(c *core.Ctx) {
 		st := st
 		run("level-status", "single applicable level "+st, nil, func(w *world.World, d *world.QeIdentityDoc) {
 			d.Levels = []world.TcbLevel{{Tcb: world.Tcb{ModuleLevel: true, IsvSvn: uint32(w.Fields.QeIsvSvn)}, Date: "2025-01-01T00:00:00Z", Status: st}}
+		})
+	}
+	for _, hi := range []uint32{65536, 131072, 0xffff0000} {
+		hi := hi
+		run("level-wide", fmt.Sprintf("first level isvsvn = report + %d (UpToDate), then an applicable OutOfDate level", hi), nil, func(w *world.World, d *world.QeIdentityDoc) {
+			d.Levels = []world.TcbLevel{{Tcb: world.Tcb{ModuleLevel: true, IsvSvn: uint32(w.Fields.QeIsvSvn) + hi}, Date: "2025-01-01T00:00:00Z", Status: "UpToDate"},
+				{Tcb: world.Tcb{ModuleLevel: true, IsvSvn: uint32(w.Fields.QeIsvSvn)}, Date: "2025-01-01T00:00:00Z", Status: "OutOfDate"}}
 		})
 	}
 	_ = rand.Int
